@@ -3,10 +3,11 @@
 import json, os, re, shutil, sys
 VERIF = os.path.dirname(os.path.dirname(os.path.abspath(__file__)))
 for d in sorted(os.listdir("/tmp")):
-    m = re.match(r"seed-(C\d\d)$", d)
+    m = re.match(r"seed(2?)-(C\d\d)$", d)
     if not m:
         continue
-    prop = m.group(1)
+    prop = m.group(2)
+    rnd = "r2" if m.group(1) else ""
     for mm in ("m1", "m2"):
         src = os.path.join("/tmp", d, mm)
         if not os.path.exists(os.path.join(src, "patch.diff")) or not os.path.exists(os.path.join(src, "confirm.txt")):
@@ -17,7 +18,7 @@ for d in sorted(os.listdir("/tmp")):
             continue
         rc_clean, rc_mut, suite = int(mo.group(1)), int(mo.group(2)), mo.group(3).strip()
         ok = rc_clean == 0 and rc_mut != 0 and re.search(r"(\d+) tests run", suite) and not re.search(r"FAIL.*raindb (?!fs::fs_disk)", suite)
-        dst = os.path.join(VERIF, "seeded", "%s-%s" % (prop, mm))
+        dst = os.path.join(VERIF, "seeded", "%s-%s%s" % (prop, rnd, mm))
         os.makedirs(dst, exist_ok=True)
         for f in ("patch.diff", "demo.diff", "demo_cmd.txt", "notes.md"):
             if os.path.exists(os.path.join(src, f)):
@@ -27,7 +28,7 @@ for d in sorted(os.listdir("/tmp")):
         meta_path = os.path.join(dst, "meta.json")
         meta = json.load(open(meta_path)) if os.path.exists(meta_path) else {}
         meta.update({
-            "id": "%s-%s" % (prop, mm),
+            "id": "%s-%s%s" % (prop, rnd, mm),
             "breaks_property": prop,
             "files_changed": files,
             "needs_to_manifest": meta.get("needs_to_manifest") or "see notes.md (written by the independent sub-agent that produced the change)",
